@@ -172,6 +172,7 @@ package websocket
 //@ func (*Conn).readFrameHeader
 //@ tags C03 C04 C10 C09
 //@ requires connInv(c) && c.br != nil && ctx != nil
+//@ requires [slot-owner] {C10 C05} gvcHeld(c.readMu.ch)
 //@ modifies ghrd(c.br).pos, c.readHeaderBuf, chanstate(c.readTimeout)
 //@ ensures [dec] result1 == nil ==> specDecoded(c.br, old(ghrd(c.br).pos), result0) && result0.payloadLength >= 0
 //@ ensures [consumed] result1 == nil ==> ghrd(c.br).pos == old(ghrd(c.br).pos) + specDecodedLen(c.br, old(ghrd(c.br).pos))
@@ -183,6 +184,7 @@ package websocket
 //@ func (*Conn).readFramePayload
 //@ tags C03 C04 C10 C09
 //@ requires connInv(c) && c.br != nil && ctx != nil
+//@ requires [slot-owner] {C10 C05} gvcHeld(c.readMu.ch)
 //@ modifies ghrd(c.br).pos, bytes(p), chanstate(c.readTimeout)
 //@ ensures [n] 0 <= result0 && result0 <= len(p) && (result1 == nil ==> result0 == len(p))
 //@ ensures [pos] ghrd(c.br).pos == old(ghrd(c.br).pos) + result0
@@ -207,6 +209,7 @@ package websocket
 //@ ensures [inv] connInv(c) && specWriteInv(c) && !gvcHeld(c.writeFrameMu.ch)
 //@ ensures [no-second-close] {C16} old(c.closeSent) ==> ghwr(c.bw).pos == old(ghwr(c.bw).pos) && ghwr(c.bw).buffered == old(ghwr(c.bw).buffered)
 //@ ensures [close-sent-monotone] {C16} old(c.closeSent) ==> c.closeSent
+//@ ensures [sends-close-with-code] {C03 C08} gvcCalls("(*Conn).writeClose") == 1 && gvcCallArg[StatusCode]("(*Conn).writeClose", 1) == code
 
 //@ func (*Conn).writeControl
 //@ tags C02 C15 C10
@@ -252,7 +255,7 @@ package websocket
 
 //@ func (*Conn).close
 //@ tags C05 C06 C20
-//@ requires connInv(c) && c.rwc != nil && !gvcHeld(c.readMu.ch) && (gvcClosed(c.closed) || (!gvcHeld(c.writeFrameMu.ch) && !gvcHeld(c.msgWriter.writeMu.ch)))
+//@ requires connInv(c) && c.rwc != nil && (gvcClosed(c.closed) || !gvcHeld(c.readMu.ch)) && (gvcClosed(c.closed) || (!gvcHeld(c.writeFrameMu.ch) && !gvcHeld(c.msgWriter.writeMu.ch)))
 //@ modifies chanstate(c.closed), chanstate(c.readMu.ch), chanstate(c.msgWriter.writeMu.ch), chanstate(c.writeFrameMu.ch), c.br, c.msgReader.flateReader, c.msgReader.dict, c.msgWriter.flateWriter
 //@ ensures [closed] {C06 C20} gvcClosed(c.closed)
 //@ ensures [once] old(gvcClosed(c.closed)) ==> result == net.ErrClosed && c.br == old(c.br)
@@ -282,6 +285,10 @@ package websocket
 //@ ensures [close-sent-monotone] {C16} old(c.closeSent) ==> c.closeSent
 //@ ensures [readmu-released-only-closed] {C05} !gvcHeld(c.readMu.ch) ==> gvcClosed(c.closed)
 //@ ensures [close-frame-is-close-error] {C06} c.closeReceived && !old(c.closeReceived) ==> h.opcode == opClose && errIsCE(err)
+//@ ensures [echo-same-code] {C06 C03} c.closeReceived && !old(c.closeReceived) ==> gvcCalls("(*Conn).writeClose") == 1 && gvcCallArg[StatusCode]("(*Conn).writeClose", 1) == errCECode(err) && gvcCallArg[string]("(*Conn).writeClose", 2) == errCEReason(err) && gvcCalls("(*Conn).close") == 1 && gvcCallSeq("(*Conn).close") > gvcCallSeq("(*Conn).writeClose")
+//@ ensures [violation-closes-1002] {C03} gvcCalls("(*Conn).writeError") >= 1 ==> gvcCallArg[StatusCode]("(*Conn).writeError", 1) == StatusProtocolError && err != nil && gvcCalls("(*Conn).writeError") == 1
+//@ ensures [oversize-or-fragmented-closes-1002] {C03} (h.payloadLength > 125 || !h.fin) ==> gvcCalls("(*Conn).writeError") == 1
+//@ ensures [ping-answered-once] {C15} h.opcode == opPing && h.fin && h.payloadLength <= 125 && gvcCalls("(*Conn).readFramePayload") == 1 && gvcCallRes[error]("(*Conn).readFramePayload", 1) == nil ==> gvcCalls("(*Conn).writeControl") == 1 && gvcCallArg[opcode]("(*Conn).writeControl", 2) == opPong && err == gvcCallRes[error]("(*Conn).writeControl", 0)
 
 //@ func (*Conn).readLoop
 //@ tags C03 C04
@@ -305,6 +312,8 @@ package websocket
 //@ ensures [close-sent-monotone] {C16} old(c.closeSent) ==> c.closeSent
 //@ loop 1 invariant [close-sent-monotone] {C16} old(c.closeSent) ==> c.closeSent
 //@ ensures [readmu-released-only-closed] {C05} !gvcHeld(c.readMu.ch) ==> gvcClosed(c.closed)
+//@ ensures [violation-closes-1002] {C03} gvcCalls("(*Conn).writeError") >= 1 ==> gvcCallArg[StatusCode]("(*Conn).writeError", 1) == StatusProtocolError && result1 != nil
+//@ loop 1 invariant [no-violation-yet] {C03} gvcCalls("(*Conn).writeError") == 0
 
 // ---------------------------------------------------------------------------
 // read.go: message level (C03, C04, C08, C01)
@@ -336,6 +345,8 @@ package websocket
 //@ ensures [n] 0 <= result0 && result0 <= len(p)
 //@ ensures [unlimited] old(lr.n) < 0 ==> lr.n == old(lr.n)
 //@ ensures [exhausted] old(lr.n) == 0 ==> result0 == 0 && result1 != nil && !errIs(result1, io.EOF) && !errIs(result1, io.ErrUnexpectedEOF)
+//@ ensures [too-big-closes-1009] {C08} old(lr.n) == 0 ==> gvcCalls("(*Conn).writeError") == 1 && gvcCallArg[StatusCode]("(*Conn).writeError", 1) == StatusMessageTooBig && gvcCallArg[*Conn]("(*Conn).writeError", 0) == lr.c
+//@ ensures [no-close-within-limit] {C08} old(lr.n) != 0 ==> gvcCalls("(*Conn).writeError") == 0
 //@ ensures [budget] old(lr.n) > 0 ==> int64(result0) <= old(lr.n) && lr.n == old(lr.n)-int64(result0)
 //@ ensures [payload-nonneg] lr.c.msgReader.payloadLength >= 0
 //@ ensures [dict-released-only] lr.c.msgReader.dict == old(lr.c.msgReader.dict) || lr.c.msgReader.dict == nil
@@ -426,18 +437,21 @@ package websocket
 //@ func (*Conn).waitGoroutines
 //@ tags C20
 //@ requires c != nil && c.timeoutLoopDone != nil && c.closed != nil && (c.closeReadCtx != nil ==> c.closeReadDone != nil)
+//@ modifies nothing
 //@ ensures [joined] result == nil ==> gvcClosed(c.timeoutLoopDone) && gvcClosed(c.closed) && (c.closeReadCtx != nil ==> gvcClosed(c.closeReadDone))
 //@ ensures [err-kind] !errIs(result, net.ErrClosed) && !errIsCE(result)
 
 //@ func (*Conn).discardFramePayload
 //@ tags C09 C06
 //@ requires connInv(c) && c.br != nil && ctx != nil
+//@ requires [slot-owner] {C10 C05} gvcHeld(c.readMu.ch)
 //@ modifies ghrd(c.br).pos, c.readControlBuf, chanstate(c.readTimeout)
 //@ ensures [consumed] result == nil && n >= 0 ==> ghrd(c.br).pos == old(ghrd(c.br).pos)+int(n)
 //@ ensures [not-ce] !errIsCE(result) && result != io.EOF
 //@ loop 1 modifies ghrd(c.br).pos, c.readControlBuf, chanstate(c.readTimeout)
 //@ loop 1 decreases int(n)
 //@ loop 1 invariant [acct] n <= old(n) && (old(n) >= 0 ==> n >= 0 && ghrd(c.br).pos == old(ghrd(c.br).pos)+int(old(n)-n))
+//@ loop 1 invariant [same-deadline] {C09} gvcCalls("(*Conn).readFramePayload") == 0 || gvcCallArg[context.Context]("(*Conn).readFramePayload", 1) == ctx
 
 //@ func (*Conn).waitCloseHandshake
 //@ tags C06 C09 C05
@@ -451,6 +465,9 @@ package websocket
 //@ loop 1 invariant [inv] connReady(c) && c.br == old(c.br) && c.br != nil && gvcHeld(c.readMu.ch) && !gvcHeld(c.writeFrameMu.ch) && !gvcHeld(c.msgWriter.writeMu.ch)
 //@ ensures [close-sent-monotone] {C16} old(c.closeSent) ==> c.closeSent
 //@ loop 1 invariant [close-sent-monotone] {C16} old(c.closeSent) ==> c.closeSent
+//@ loop 1 invariant [one-deadline] {C09} gvcCalls("context.WithTimeout") == 1
+//@ loop 1 invariant [same-deadline] {C09} (gvcCalls("(*Conn).readLoop") == 0 || gvcCallArg[context.Context]("(*Conn).readLoop", 1) == ctx) && (gvcCalls("(*Conn).discardFramePayload") == 0 || gvcCallArg[context.Context]("(*Conn).discardFramePayload", 1) == ctx)
+//@ note [one-deadline]/[same-deadline]: the whole wait for the peer's Close frame runs under the single 5 s context derived at the top (checked per iteration at the back edge); the bound itself is timing and not decided
 
 //@ func (*Conn).closeHandshake
 //@ tags C06
@@ -466,16 +483,19 @@ package websocket
 //@ requires connReady(c) && !gvcHeld(c.readMu.ch) && !gvcHeld(c.writeFrameMu.ch) && !gvcHeld(c.msgWriter.writeMu.ch) && (c.br != nil || gvcClosed(c.closed)) && c.timeoutLoopDone != nil && (c.closeReadCtx != nil ==> c.closeReadDone != nil)
 //@ modifies c.closing, $WRFP, $RDFP, $CLFP
 //@ ensures [second-call] old(c.closing) ==> err != nil
+//@ ensures [second-call-is-errclosed] {C06} old(c.closing) ==> gvcCalls("(*Conn).waitGoroutines") == 1 && (gvcCallRes[error]("(*Conn).waitGoroutines", 0) == nil ==> errIs(err, net.ErrClosed))
 //@ ensures [closing] c.closing
 //@ ensures [joined] {C20} err == nil ==> gvcClosed(c.timeoutLoopDone) && gvcClosed(c.closed) && (c.closeReadCtx != nil ==> gvcClosed(c.closeReadDone))
 //@ ensures [close-sent-monotone] {C16} old(c.closeSent) ==> c.closeSent
 //@ ensures [second-call-joined] {C20} old(c.closing) && errIs(err, net.ErrClosed) ==> gvcClosed(c.timeoutLoopDone) && (c.closeReadCtx != nil ==> gvcClosed(c.closeReadDone))
+//@ ensures [idle-always] {C20 C09} connIdle(c) && (gvcClosed(c.closed) || gvcHeld(c.readMu.ch) == old(gvcHeld(c.readMu.ch)))
 
 //@ func (*Conn).CloseNow
 //@ tags C06 C20
 //@ requires connReady(c) && !gvcHeld(c.readMu.ch) && !gvcHeld(c.writeFrameMu.ch) && !gvcHeld(c.msgWriter.writeMu.ch) && c.timeoutLoopDone != nil && (c.closeReadCtx != nil ==> c.closeReadDone != nil)
 //@ modifies c.closing, $WRFP, $CLFP
 //@ ensures [second-call] old(c.closing) ==> err != nil
+//@ ensures [second-call-is-errclosed] {C06} old(c.closing) ==> gvcCalls("(*Conn).waitGoroutines") == 1 && (gvcCallRes[error]("(*Conn).waitGoroutines", 0) == nil ==> errIs(err, net.ErrClosed))
 //@ ensures [closing] c.closing
 //@ ensures [joined] {C20} err == nil ==> gvcClosed(c.timeoutLoopDone) && gvcClosed(c.closed) && (c.closeReadCtx != nil ==> gvcClosed(c.closeReadDone))
 //@ ensures [second-call-joined] {C20} old(c.closing) && errIs(err, net.ErrClosed) ==> gvcClosed(c.timeoutLoopDone) && (c.closeReadCtx != nil ==> gvcClosed(c.closeReadDone))
@@ -697,6 +717,7 @@ package websocket
 //@ ensures [closed-fails] {C06} old(gvcClosed(c.closed)) ==> err != nil
 //@ ensures [ok-keeps] {C18 C19} err == nil ==> connOpen(c) && c.br == old(c.br) && c.msgReader.ctx == ctx
 //@ ensures [not-bare-eof] {C18} err != io.EOF
+//@ ensures [idle-always] {C20 C09} connIdle(c)
 //@ ensures [reader-returned] {C18 C19} err == nil ==> result1 != nil
 //@ ensures [reader-owner] {assume} err == nil ==> ghconn(result1) == c
 //@ note [reader-owner] defines the ghost relation ghconn for the message reader handed to the caller (assumption A-internal-readers): it reads for this connection
@@ -719,6 +740,12 @@ package websocket
 //@ modifies $WRFP, mapof(c.activePings)
 //@ ensures [closed-fails] {C06} old(gvcClosed(c.closed)) ==> result != nil
 //@ ensures [deregistered] {C15} !gvcMapHas(c.activePings, p) || old(gvcMapHas(c.activePings, p))
+//@ ensures [registers-own-payload] {C15} gvcCalls("map.update") == 1 && gvcCallArg[string]("map.update", 1) == p && gvcSameRef(gvcCallArg[map[string]chan<- struct{}]("map.update", 0), c.activePings) && gvcFresh(gvcCallArg[chan<- struct{}]("map.update", 2)) && gvcCallSeq("map.update") < gvcCallSeq("(*Conn).writeControl")
+//@ ensures [ping-frame] {C15} gvcCalls("(*Conn).writeControl") == 1 && gvcCallArg[opcode]("(*Conn).writeControl", 2) == opPing && len(gvcCallArg[[]byte]("(*Conn).writeControl", 3)) == len(p)
+//@ ensures [ping-payload] {C15} forall(0, len(p), func(k int) bool { return gvcCallArg[[]byte]("(*Conn).writeControl", 3)[k] == p[k] })
+//@ ensures [write-fails] {C15} gvcCallRes[error]("(*Conn).writeControl", 0) != nil ==> result == gvcCallRes[error]("(*Conn).writeControl", 0)
+//@ ensures [nil-only-after-own-pong] {C15} result == nil ==> gvcCallRes[error]("(*Conn).writeControl", 0) == nil && gvcSameRef(gvcCallArg[chan struct{}]("chan.recv", 0), gvcCallArg[chan<- struct{}]("map.update", 2)) && gvcCallSeq("chan.recv") > gvcCallSeq("(*Conn).writeControl")
+//@ ensures [deregisters-own-payload] {C15} gvcCalls("map.delete") == 1 && gvcCallArg[string]("map.delete", 1) == p && gvcCallSeq("map.delete") > gvcCallSeq("(*Conn).writeControl")
 //@ ensures [close-sent-kept] {C16} c.closeSent == old(c.closeSent)
 
 //@ func (*Conn).CloseRead
@@ -737,6 +764,8 @@ package websocket
 //@ modifies $WRFP, mapof(c.activePings), c.pingCounter
 //@ ensures [closed-fails] {C06} old(gvcClosed(c.closed)) ==> result != nil
 //@ ensures [close-sent-kept] {C16} c.closeSent == old(c.closeSent)
+//@ ensures [own-payload] {C15} c.pingCounter == old(c.pingCounter)+1 && gvcCalls("(*Conn).ping") == 1 && gvcCallArg[string]("(*Conn).ping", 2) == strconv.Itoa(int(c.pingCounter)) && gvcCallArg[context.Context]("(*Conn).ping", 1) == ctx
+//@ ensures [nil-iff-ping-nil] {C15} (result == nil) == (gvcCallRes[error]("(*Conn).ping", 0) == nil)
 
 // ---------------------------------------------------------------------------
 // compress.go / accept.go / dial.go: permessage-deflate negotiation (C14)
@@ -1131,3 +1160,29 @@ package websocket
 //@ ensures [timers] result.(*netConn).readTimer != nil && result.(*netConn).writeTimer != nil
 //@ ensures [limit-disabled] gvcCalls("(*Conn).SetReadLimit") == 1 && gvcCallArg[int64]("(*Conn).SetReadLimit", 1) == -1 && gvcCallArg[*Conn]("(*Conn).SetReadLimit", 0) == c
 //@ ensures [locks-free] !gvcHeld(result.(*netConn).readMu.ch) && !gvcHeld(result.(*netConn).writeMu.ch)
+
+// The goroutine started by CloseRead (function literal 1 of CloseRead), verified as a
+// function of its captured variables: whatever the reader returns, the connection is closed,
+// the context handed to the caller is cancelled and closeReadDone is closed (what Close /
+// CloseNow wait for); a data message closes the connection with StatusPolicyViolation.
+
+//@ func (*Conn).CloseRead$1
+//@ tags C20 C09
+//@ requires connReady(c) && ctx != nil && !gvcHeld(c.readMu.ch) && !gvcHeld(c.writeFrameMu.ch) && !gvcHeld(c.msgWriter.writeMu.ch) && (c.br != nil || gvcClosed(c.closed)) && ghconn(io.Reader(c.msgReader.readFunc)) == c && c.msgReader.readFunc != nil
+//@ requires [join-state] c.timeoutLoopDone != nil && c.closeReadDone != nil && !gvcClosed(c.closeReadDone) && gvcDistinct7(c.closeReadDone, c.closed, c.readMu.ch, c.writeFrameMu.ch, c.msgWriter.mu.ch, c.msgWriter.writeMu.ch, c.timeoutLoopDone)
+//@ opt noframe=mem:u8
+//@ modifies $RDFP, $WRFP, $CLFP, c.msgReader.ctx, c.msgReader.flate, c.msgReader.limitReader.n, c.msgReader.limitReader.r, c.msgReader.fin, c.msgReader.payloadLength, c.msgReader.maskKey, c.msgReader.flateBufio, c.msgReader.flateTail, c.closing, chanstate(c.closeReadDone), chanstate(c.writeFrameMu.ch)
+//@ ensures [done-closed] {C20} gvcClosed(c.closeReadDone)
+//@ ensures [conn-closed] {C20 C09} gvcClosed(c.closed)
+//@ ensures [context-cancelled] {C09} gvcCalls("context.CancelFunc") == 1 && gvcSameRef(gvcCallArg[context.CancelFunc]("context.CancelFunc", 0), cancel)
+//@ ensures [one-reader] gvcCalls("(*Conn).reader") == 1 && gvcCallArg[context.Context]("(*Conn).reader", 1) == ctx
+//@ ensures [data-message-is-policy-violation] gvcCallRes[error]("(*Conn).reader", 2) == nil ==> gvcCalls("(*Conn).Close") == 1 && gvcCallArg[StatusCode]("(*Conn).Close", 1) == StatusPolicyViolation
+//@ ensures [no-close-handshake-otherwise] gvcCallRes[error]("(*Conn).reader", 2) != nil ==> gvcCalls("(*Conn).Close") == 0
+//@ ensures [order] gvcCallSeq("(*Conn).close") > gvcCallSeq("(*Conn).reader") && gvcCallSeq("context.CancelFunc") > gvcCallSeq("(*Conn).close")
+
+// The slot of timeoutLoop that holds "the context currently allowed to kill the connection"
+// is overwritten only by the goroutine that holds the corresponding lock (C10: a context
+// bounds only its own call; C05 lock discipline): obligations at every send on these fields.
+
+//@ guard Conn.writeTimeout Conn.writeFrameMu C10 C05
+//@ guard Conn.readTimeout Conn.readMu C10 C05
